@@ -356,6 +356,10 @@ RAW = {
 RAW_TEXTS = sorted(RAW)
 
 
+class _ArgumentFailure(Exception):
+    pass
+
+
 class TagHandler(BaseHandler):
     """A media handler whose output says which handler ran."""
 
@@ -440,6 +444,36 @@ def apply_op(op, slots, objs, ctx, step=0):
             def f():
                 del real[key]
             expect_keyerror(f, 'del')
+    elif name in ('update', 'ior') and op['how'] in ('failing_gen', 'bad_pair'):
+        # the argument fails part-way through.  Whether the pairs seen before the failure are applied or not is the
+        # implementation's choice; the resolution rule is then judged against what the mapping REALLY contains now
+        d = _items_dict(op['items'], objs)
+        before = dict(model)
+
+        def gen():
+            for kv in d.items():
+                yield kv
+            raise _ArgumentFailure('the iterable given to update() failed')
+        arg = gen() if op['how'] == 'failing_gen' else list(d.items()) + [('only-one-element',)]
+        try:
+            if name == 'update':
+                real.update(arg)
+            else:
+                real |= arg
+        except (_ArgumentFailure, ValueError, TypeError):
+            pass
+        else:
+            raise Violation('mapping_semantics', '%s: %s with a failing argument did not raise' % (ctx, name))
+        now = {k: real[k] for k in list(real)}
+        for k, v in now.items():
+            if not ((k in before and before[k] is v) or (k in d and d[k] is v)):
+                raise Violation('mapping_semantics', '%s: after a failed %s, key %r maps to %r (neither the old nor the new handler)'
+                                % (ctx, name, k, v))
+        if any(k not in now for k in before):
+            raise Violation('mapping_semantics', '%s: a failed %s removed keys: %r -> %r' % (ctx, name, before, now))
+        model.clear()
+        model.update(now)
+        return 'failed_update:' + ('applied_some' if now != before else 'applied_none')
     elif name == 'update':
         d = _items_dict(op['items'], objs)
         how = op['how']
